@@ -59,3 +59,45 @@ structure RawDef where
   deriving Repr, BEq, DecidableEq
 
 end Cv.Py
+
+namespace Cv.Py
+
+/-- all ways to take one element out of a list, in order -/
+def pyPicks {α : Type} : List α → List (α × List α)
+  | [] => []
+  | a :: t => (a, t) :: (pyPicks t).map fun p => (p.1, a :: p.2)
+
+/-- `itertools.permutations(l, r)` as lists, in itertools' order (lexicographic by position) -/
+def pyPermutationsN {α : Type} : Nat → List α → List (List α)
+  | 0, _ => [[]]
+  | r+1, l => (pyPicks l).flatMap fun p => (pyPermutationsN r p.2).map (p.1 :: ·)
+
+def pyPermutationsR {α : Type} (l : List α) (r : Int) : List (List α) :=
+  if r < 0 then [] else pyPermutationsN r.toNat l      -- (a negative r raises ValueError: never produced by the sources translated)
+
+def pyPermutations {α : Type} (l : List α) : List (List α) := pyPermutationsN l.length l
+
+/-- `itertools.combinations(l, k)` in lexicographic order -/
+def pyCombinationsN {α : Type} : List α → Nat → List (List α)
+  | _, 0 => [[]]
+  | [], _+1 => []
+  | a :: t, k+1 => (pyCombinationsN t k).map (a :: ·) ++ pyCombinationsN t (k+1)
+
+def pyCombinations {α : Type} (l : List α) (k : Int) : List (List α) :=
+  if k < 0 then [] else pyCombinationsN l k.toNat
+
+/-- `enumerate(l)` -/
+def pyEnumerate {α : Type} (l : List α) : List (Int × α) :=
+  List.zipWith (fun (i : Nat) (a : α) => ((i : Int), a)) (List.range l.length) l
+
+/-- `any(f x for x in l)` with short-circuit evaluation (elements after the first true one are not evaluated) -/
+def pyAnyM {α : Type} (f : α → Option Bool) : List α → Option Bool
+  | [] => some false
+  | a :: t => do if (← f a) then pure true else pyAnyM f t
+
+/-- `all(f x for x in l)` with short-circuit evaluation -/
+def pyAllM {α : Type} (f : α → Option Bool) : List α → Option Bool
+  | [] => some true
+  | a :: t => do if (← f a) then pyAllM f t else pure false
+
+end Cv.Py
